@@ -26,3 +26,9 @@ def run(run):
     rn, rmax = (40, 300) if run.thorough() else (6, 48)
     tr2 = exec_script(run, exe, [], "Random %d %d %d\nDeep %d\n" % (run.seed, rn, rmax, 20000 if run.thorough() else 6000), run.path("bt-random.ndjson"), "large-shapes", timeout=600)
     check_trace(run, "large-shapes", "TraceBinTree", "TraceBinTree.cfg", tr2, timeout=1700)
+    # release-style build (NDEBUG, unsigned char, -O2): all shapes up to 5 nodes and a few large ones again
+    exe2 = build_driver(run, "bt_drv_alt", "bt_drv.c", ["librfn/bintree.c", "librfn/util.c"], libs=["-lpthread"], extra_flags=ALT_FLAGS)
+    tr3 = exec_script(run, exe2, [], "All 5\n", run.path("bt-alt.ndjson"), "release-build shapes", timeout=600)
+    check_trace(run, "release-build-shapes", "TraceBinTree", "TraceBinTree_small.cfg", tr3, timeout=1700)
+    tr4 = exec_script(run, exe2, [], "Random %d %d %d\nDeep 3000\n" % (run.seed + 5, 3, 40), run.path("bt-alt-random.ndjson"), "release-build large", timeout=600)
+    check_trace(run, "release-build-large", "TraceBinTree", "TraceBinTree.cfg", tr4, timeout=1700)
